@@ -59,7 +59,9 @@ func (u *Unit) VerifyFunc() {
 	for _, fv := range fn.FreeVars {
 		a := u.Const("fv_"+sanitize(fv.Name()), SV)
 		u.Axiom(Neq(a, NilV))
-		u.Axiom(Le(App("aid", SInt, App("aobj", SV, a)), IntLit(0)))
+		u.Axiom(Eq(App("aobj", SV, a), a))
+		u.Axiom(Eq(App("akind", SInt, a), IntLit(0)))
+		u.Axiom(Le(App("aid", SInt, a), IntLit(0)))
 		fr.Vals[fv] = Val{T: a}
 	}
 	// distinct free-variable cells
